@@ -209,6 +209,15 @@ let rec nth_error l = function
            | [] -> None
            | _ :: l0 -> nth_error l0 n0)
 
+(** val last : 'a1 list -> 'a1 -> 'a1 **)
+
+let rec last l d =
+  match l with
+  | [] -> d
+  | a :: l0 -> (match l0 with
+                | [] -> a
+                | _ :: _ -> last l0 d)
+
 (** val rev : 'a1 list -> 'a1 list **)
 
 let rec rev = function
@@ -233,6 +242,12 @@ let rec fold_left f l a0 =
   match l with
   | [] -> a0
   | b :: t -> fold_left f t (f a0 b)
+
+(** val fold_right : ('a2 -> 'a1 -> 'a1) -> 'a1 -> 'a2 list -> 'a1 **)
+
+let rec fold_right f a0 = function
+| [] -> a0
+| b :: t -> f b (fold_right f a0 t)
 
 (** val existsb : ('a1 -> bool) -> 'a1 list -> bool **)
 
@@ -1238,7 +1253,7 @@ type world = { obs : (oid -> observer); n_obs : nat; ctls : (cid -> ctrl);
                ncalls : (nat -> nat); n_child : nat; n_handles : nat;
                n_hot : nat; log : ((nat * nat) * ev) list;
                taplog : (nat * ev) list;
-               probes : (((nat * nat) * nat) * bool) list;
+               probes : (((((nat * nat) * nat) * bool) * nat) * nat) list;
                snaps : ((nat * bool list) * nat list) list;
                held : (lockid * mode) list; cur : nat; out : outcome }
 
@@ -1506,7 +1521,8 @@ let w_taplog v w =
     w.n_handles; n_hot = w.n_hot; log = w.log; taplog = v; probes = w.probes;
     snaps = w.snaps; held = w.held; cur = w.cur; out = w.out }
 
-(** val w_probes : (((nat * nat) * nat) * bool) list -> world -> world **)
+(** val w_probes :
+    (((((nat * nat) * nat) * bool) * nat) * nat) list -> world -> world **)
 
 let w_probes v w =
   { obs = w.obs; n_obs = w.n_obs; ctls = w.ctls; n_ctls = w.n_ctls; nodes =
@@ -2373,7 +2389,11 @@ let step r w =
      | None -> ([], w))
   | Src (s, att, o, script, idx) ->
     let alive = is_sub (w.obs o) in
-    let w1 = w_probes (app w.probes ((((s, att), idx), alive) :: [])) w in
+    let w1 =
+      w_probes
+        (app w.probes ((((((s, att), idx), alive), (length w.log)),
+          w.cur) :: [])) w
+    in
     (match script with
      | [] -> ([], w1)
      | e :: rest ->
@@ -6056,7 +6076,8 @@ let loc_derived_op = function
 
 type observation = { ob_out : nat; ob_log : ((nat * nat) * ev) list;
                      ob_tap : (nat * ev) list;
-                     ob_probes : (((nat * nat) * nat) * bool) list;
+                     ob_probes : (((((nat * nat) * nat) * bool) * nat) * nat)
+                                 list;
                      ob_snaps : ((nat * bool list) * nat list) list }
 
 (** val obs_of_run : (req list * world) -> observation **)
@@ -6287,3 +6308,642 @@ let c02_loc_oracle sc o =
            | _ :: _ -> None)
         | S _ -> None)
      | _ -> None)
+
+(** val index_from : nat -> 'a1 list -> (nat * 'a1) list **)
+
+let rec index_from i = function
+| [] -> []
+| x :: r -> (i, x) :: (index_from (S i) r)
+
+(** val actions : scenario -> (nat * action) list **)
+
+let actions sc =
+  index_from (S O) sc.sc_script
+
+(** val first_some : 'a1 option list -> 'a1 option **)
+
+let first_some l =
+  fold_right (fun o acc -> match o with
+                           | Some x -> Some x
+                           | None -> acc) None l
+
+(** val sub_at : scenario -> nat -> nat option **)
+
+let sub_at sc k =
+  first_some
+    (map (fun ia ->
+      match snd ia with
+      | DSub (k', _, _) -> if Nat.eqb k k' then Some (fst ia) else None
+      | _ -> None) (actions sc))
+
+(** val unsub_at : scenario -> nat -> nat option **)
+
+let unsub_at sc k =
+  match sub_at sc k with
+  | Some s ->
+    first_some
+      (map (fun ia ->
+        match snd ia with
+        | DUnsub k' ->
+          if (&&) (Nat.eqb k k') (Nat.ltb s (fst ia))
+          then Some (fst ia)
+          else None
+        | _ -> None) (actions sc))
+  | None -> None
+
+(** val reactions_of : scenario -> nat -> (nat * reaction) list **)
+
+let reactions_of sc k =
+  flat_map (fun a ->
+    match a with
+    | DSub (k', _, rs) -> if Nat.eqb k k' then rs else []
+    | _ -> []) sc.sc_script
+
+(** val pipe_of : scenario -> nat -> pipe option **)
+
+let pipe_of sc k =
+  first_some
+    (map (fun a ->
+      match a with
+      | DSub (k', p, _) -> if Nat.eqb k k' then Some p else None
+      | _ -> None) sc.sc_script)
+
+(** val simple_reactions : scenario -> bool **)
+
+let simple_reactions sc =
+  forallb (fun a ->
+    match a with
+    | DSub (_, _, rs) ->
+      forallb (fun ir ->
+        match snd ir with
+        | RUnsubSelf -> true
+        | REmit (_, _) -> true
+        | _ -> false) rs
+    | _ -> true) sc.sc_script
+
+(** val uentries :
+    nat -> ((nat * nat) * ev) list -> ((nat * nat) * ev) list **)
+
+let uentries u l =
+  flat_map (fun pe ->
+    let (pos, p) = pe in
+    let (p0, e) = p in
+    let (u', c) = p0 in if Nat.eqb u' u then ((pos, c), e) :: [] else [])
+    (index_from O l)
+
+(** val term_entry : ((nat * nat) * ev) list -> (nat * nat) option **)
+
+let term_entry es =
+  first_some
+    (map (fun pce ->
+      let (p0, e) = pce in if is_term e then Some p0 else None) es)
+
+(** val self_unsub_entry :
+    scenario -> nat -> ((nat * nat) * ev) list -> (nat * nat) option **)
+
+let self_unsub_entry sc k es =
+  match sub_at sc k with
+  | Some s ->
+    first_some
+      (map (fun ir ->
+        match snd ir with
+        | RUnsubSelf ->
+          (match nth_error es (fst ir) with
+           | Some p0 ->
+             let (p1, _) = p0 in
+             let (p, c) = p1 in if Nat.ltb s c then Some (p, c) else None
+           | None -> None)
+        | _ -> None) (reactions_of sc k))
+  | None -> None
+
+(** val c05_handle : scenario -> observation -> nat -> bool **)
+
+let c05_handle sc o k =
+  let es = uentries (uenc (UTop k)) o.ob_log in
+  let ua = unsub_at sc k in
+  let su = self_unsub_entry sc k es in
+  let te = term_entry es in
+  (&&)
+    ((&&)
+      (match ua with
+       | Some a -> forallb (fun pce -> Nat.ltb (snd (fst pce)) a) es
+       | None -> true)
+      (match su with
+       | Some p0 ->
+         let (p, _) = p0 in forallb (fun pce -> Nat.leb (fst (fst pce)) p) es
+       | None -> true))
+    (forallb (fun snap ->
+      let (p, _) = snap in
+      let (j, flags) = p in
+      let expected =
+        match sub_at sc k with
+        | Some s ->
+          (&&)
+            ((&&)
+              ((&&) (Nat.leb s j)
+                (negb (match ua with
+                       | Some a -> Nat.leb a j
+                       | None -> false)))
+              (negb
+                (match su with
+                 | Some p0 -> let (_, c) = p0 in Nat.leb c j
+                 | None -> false)))
+            (negb
+              (match te with
+               | Some p0 -> let (_, c) = p0 in Nat.leb c j
+               | None -> false))
+        | None -> false
+      in
+      eqb (nth k flags false) expected) o.ob_snaps)
+
+(** val c05_oracle : scenario -> observation -> bool option **)
+
+let c05_oracle sc o =
+  if negb (Nat.eqb o.ob_out O)
+  then None
+  else if negb (simple_reactions sc)
+       then None
+       else Some (forallb (c05_handle sc o) (seq O sc.sc_handles))
+
+(** val colds_in : pipe -> bool **)
+
+let rec colds_in = function
+| PCold _ -> true
+| PDefer q -> colds_in q
+| POp (_, src, others) ->
+  (||) (colds_in src)
+    (let rec any = function
+     | [] -> false
+     | q :: r -> (||) (colds_in q) (any r)
+     in any others)
+| _ -> false
+
+(** val end_marks :
+    scenario -> observation -> nat -> nat option * nat option **)
+
+let end_marks sc o k =
+  let es = uentries (uenc (UTop k)) o.ob_log in
+  let by_term =
+    match term_entry es with
+    | Some p0 -> let (p, _) = p0 in Some p
+    | None -> None
+  in
+  let by_self =
+    match self_unsub_entry sc k es with
+    | Some p0 -> let (p, _) = p0 in Some p
+    | None -> None
+  in
+  ((match by_term with
+    | Some a ->
+      (match by_self with
+       | Some b -> Some (Nat.min a b)
+       | None -> Some a)
+    | None -> by_self), (unsub_at sc k))
+
+(** val c06_oracle : scenario -> observation -> bool option **)
+
+let c06_oracle sc o =
+  if negb (Nat.eqb o.ob_out O)
+  then None
+  else if negb (simple_reactions sc)
+       then None
+       else let others_cold =
+              existsb (fun k ->
+                match pipe_of sc k with
+                | Some p -> colds_in p
+                | None -> false) (seq (S O) (sub sc.sc_handles (S O)))
+            in
+            let conns_cold = existsb (fun kp -> colds_in (snd kp)) sc.sc_conns
+            in
+            if (||) others_cold conns_cold
+            then None
+            else let (pos_end, act_end) = end_marks sc o O in
+                 let probes_ok =
+                   forallb (fun pr ->
+                     let (p, c) = pr in
+                     let (p0, loglen) = p in
+                     let (_, alive) = p0 in
+                     let after_pos =
+                       match pos_end with
+                       | Some p1 -> Nat.ltb p1 loglen
+                       | None -> false
+                     in
+                     let after_act =
+                       match act_end with
+                       | Some a -> Nat.leb a c
+                       | None -> false
+                     in
+                     if (||) after_pos after_act then negb alive else true)
+                     o.ob_probes
+                 in
+                 let all_ended = fun flags -> forallb negb flags in
+                 let counts_ok =
+                   match rev o.ob_snaps with
+                   | [] -> true
+                   | p :: _ ->
+                     let (p0, counts) = p in
+                     let (_, flags) = p0 in
+                     if (&&) (all_ended flags)
+                          (forallb (fun _ -> true) (seq O sc.sc_handles))
+                     then forallb (fun n -> Nat.eqb n O) counts
+                     else true
+                 in
+                 Some ((&&) probes_ok counts_ok)
+
+type sref = { r_reg : nat list; r_items : val0 list; r_term : ev option;
+              r_logs : (nat -> ev list); r_joined_at : (nat -> nat) }
+
+(** val r_add_log : sref -> nat -> ev list -> sref **)
+
+let r_add_log r k es =
+  { r_reg = r.r_reg; r_items = r.r_items; r_term = r.r_term; r_logs =
+    (fun x -> if Nat.eqb x k then app (r.r_logs x) es else r.r_logs x);
+    r_joined_at = r.r_joined_at }
+
+(** val r_deliver : sref -> ev list -> sref **)
+
+let r_deliver r es =
+  fold_left (fun acc k -> r_add_log acc k es) r.r_reg r
+
+(** val r_set_reg : sref -> nat list -> sref **)
+
+let r_set_reg r l =
+  { r_reg = l; r_items = r.r_items; r_term = r.r_term; r_logs = r.r_logs;
+    r_joined_at = r.r_joined_at }
+
+(** val r_push : sref -> val0 -> sref **)
+
+let r_push r v =
+  { r_reg = r.r_reg; r_items = (app r.r_items (v :: [])); r_term = r.r_term;
+    r_logs = r.r_logs; r_joined_at = r.r_joined_at }
+
+(** val r_set_term : sref -> ev -> sref **)
+
+let r_set_term r t =
+  { r_reg = r.r_reg; r_items = r.r_items; r_term = (Some t); r_logs =
+    r.r_logs; r_joined_at = r.r_joined_at }
+
+(** val r_join : sref -> nat -> sref **)
+
+let r_join r k =
+  { r_reg = (app r.r_reg (k :: [])); r_items = r.r_items; r_term = r.r_term;
+    r_logs = r.r_logs; r_joined_at = (fun x ->
+    if Nat.eqb x k then length r.r_items else r.r_joined_at x) }
+
+(** val sref0 : val0 option -> sref **)
+
+let sref0 init =
+  { r_reg = []; r_items = (match init with
+                           | Some v -> v :: []
+                           | None -> []); r_term = None; r_logs = (fun _ ->
+    []); r_joined_at = (fun _ -> O) }
+
+(** val sref_step : skind -> sref -> action -> sref **)
+
+let sref_step kind r = function
+| DSub (k, _, _) ->
+  (match kind with
+   | KBehavior ->
+     (match r.r_term with
+      | Some t -> r_add_log r k (t :: [])
+      | None ->
+        r_join
+          (r_add_log r k
+            (match last (map (fun x -> Some x) r.r_items) None with
+             | Some v -> (Nx v) :: []
+             | None -> [])) k)
+   | KReplay ->
+     let r1 = r_add_log r k (map (fun x -> Nx x) r.r_items) in
+     (match r.r_term with
+      | Some t -> r_add_log r1 k (t :: [])
+      | None -> r_join r1 k)
+   | _ -> r_join r k)
+| DUnsub k -> r_set_reg r (filter (fun x -> negb (Nat.eqb x k)) r.r_reg)
+| DEmit (_, e0) ->
+  (match e0 with
+   | Nx v ->
+     (match kind with
+      | KAsync -> r_push r v
+      | _ -> r_deliver (r_push r v) ((Nx v) :: []))
+   | Er e -> r_set_reg (r_deliver (r_set_term r (Er e)) ((Er e) :: [])) []
+   | Co ->
+     (match kind with
+      | KAsync ->
+        let r1 =
+          fold_left (fun acc k ->
+            r_add_log acc k
+              (match last
+                       (map (fun x -> Some x)
+                         (skipn (r.r_joined_at k) r.r_items)) None with
+               | Some v -> (Nx v) :: (Co :: [])
+               | None -> Co :: [])) r.r_reg r
+        in
+        r_set_reg (r_set_term r1 Co) []
+      | _ -> r_set_reg (r_deliver (r_set_term r Co) (Co :: [])) []))
+| _ -> r
+
+(** val emits_after_terminal : bool -> action list -> bool **)
+
+let rec emits_after_terminal seen = function
+| [] -> false
+| a :: r ->
+  (match a with
+   | DEmit (_, e) -> if seen then true else emits_after_terminal (is_term e) r
+   | _ -> emits_after_terminal seen r)
+
+(** val direct_or_id : pipe -> bool **)
+
+let direct_or_id = function
+| PHot h -> (match h with
+             | O -> true
+             | S _ -> false)
+| POp (o, src, others) ->
+  (match o with
+   | OMap f ->
+     (match f with
+      | FId ->
+        (match src with
+         | PHot h ->
+           (match h with
+            | O -> (match others with
+                    | [] -> true
+                    | _ :: _ -> false)
+            | S _ -> false)
+         | _ -> false)
+      | _ -> false)
+   | OFilter p0 ->
+     (match p0 with
+      | PTrue ->
+        (match src with
+         | PHot h ->
+           (match h with
+            | O -> (match others with
+                    | [] -> true
+                    | _ :: _ -> false)
+            | S _ -> false)
+         | _ -> false)
+      | _ -> false)
+   | OMapToAny ->
+     (match src with
+      | PHot h ->
+        (match h with
+         | O -> (match others with
+                 | [] -> true
+                 | _ :: _ -> false)
+         | S _ -> false)
+      | _ -> false)
+   | _ -> false)
+| _ -> false
+
+(** val c10_oracle : scenario -> observation -> bool option **)
+
+let c10_oracle sc o =
+  match sc.sc_subjects with
+  | [] -> None
+  | p :: l ->
+    let (kind, init) = p in
+    (match l with
+     | [] ->
+       (match sc.sc_conns with
+        | [] ->
+          if negb (Nat.eqb o.ob_out O)
+          then None
+          else if negb
+                    (forallb (fun a ->
+                      match a with
+                      | DSub (_, p0, rs) ->
+                        (match rs with
+                         | [] -> direct_or_id p0
+                         | _ :: _ -> false)
+                      | DUnsub _ -> true
+                      | DEmit (h, _) -> Nat.eqb h O
+                      | _ -> false) sc.sc_script)
+               then None
+               else if (&&) (match kind with
+                             | KSubject -> false
+                             | _ -> true)
+                         (emits_after_terminal false sc.sc_script)
+                    then None
+                    else let r =
+                           fold_left (sref_step kind) sc.sc_script
+                             (sref0
+                               (match kind with
+                                | KBehavior -> init
+                                | _ -> None))
+                         in
+                         Some
+                         ((&&)
+                           (forallb (fun k ->
+                             evs_sim (ulog (uenc (UTop k)) o.ob_log)
+                               (r.r_logs k)) (seq O sc.sc_handles))
+                           (match kind with
+                            | KSubject ->
+                              let states =
+                                fold_left (fun acc a ->
+                                  app acc
+                                    ((sref_step kind (last acc (sref0 None))
+                                       a) :: [])) sc.sc_script
+                                  ((sref0 None) :: [])
+                              in
+                              forallb (fun js ->
+                                match nth_error o.ob_snaps (fst js) with
+                                | Some p0 ->
+                                  let (_, counts) = p0 in
+                                  Nat.eqb (nth O counts O)
+                                    (length (snd js).r_reg)
+                                | None -> true)
+                                (combine (seq O (length sc.sc_script))
+                                  (tl states))
+                            | _ -> true))
+        | _ :: _ -> None)
+     | _ :: _ -> None)
+
+type cref = { q_reg : nat list; q_conn : bool; q_items : val0 list;
+              q_term : ev option; q_logs : (nat -> ev list);
+              q_attempts : nat; q_dbl : bool }
+
+(** val q_add_log : cref -> nat -> ev list -> cref **)
+
+let q_add_log r k es =
+  { q_reg = r.q_reg; q_conn = r.q_conn; q_items = r.q_items; q_term =
+    r.q_term; q_logs = (fun x ->
+    if Nat.eqb x k then app (r.q_logs x) es else r.q_logs x); q_attempts =
+    r.q_attempts; q_dbl = r.q_dbl }
+
+(** val q_upd : cref -> nat list -> bool -> cref **)
+
+let q_upd r reg conn0 =
+  { q_reg = reg; q_conn = conn0; q_items = r.q_items; q_term = r.q_term;
+    q_logs = r.q_logs; q_attempts = r.q_attempts; q_dbl = r.q_dbl }
+
+(** val q_deliver : cref -> ev list -> cref **)
+
+let q_deliver r es =
+  fold_left (fun acc k -> q_add_log acc k es) r.q_reg r
+
+(** val q_source_ev : ckind -> cref -> ev -> cref **)
+
+let q_source_ev _ r e =
+  if r.q_conn
+  then (match e with
+        | Nx v ->
+          let r1 = q_deliver r ((Nx v) :: []) in
+          { q_reg = r1.q_reg; q_conn = true; q_items =
+          (app r1.q_items (v :: [])); q_term = r1.q_term; q_logs = r1.q_logs;
+          q_attempts = r1.q_attempts; q_dbl = r1.q_dbl }
+        | _ ->
+          let r1 = q_deliver r (e :: []) in
+          { q_reg = []; q_conn = false; q_items = r1.q_items; q_term = (Some
+          e); q_logs = r1.q_logs; q_attempts = r1.q_attempts; q_dbl =
+          r1.q_dbl })
+  else r
+
+(** val q_connect : ckind -> ev list option -> cref -> cref **)
+
+let q_connect kind cold r =
+  let r1 = { q_reg = r.q_reg; q_conn = true; q_items = r.q_items; q_term =
+    r.q_term; q_logs = r.q_logs; q_attempts = (S r.q_attempts); q_dbl =
+    ((||) r.q_dbl r.q_conn) }
+  in
+  (match cold with
+   | Some script -> fold_left (q_source_ev kind) script r1
+   | None -> r1)
+
+(** val cref_step : ckind -> ev list option -> cref -> action -> cref **)
+
+let cref_step kind cold r = function
+| DSub (k, _, _) ->
+  (match kind with
+   | CPublish -> q_upd r (app r.q_reg (k :: [])) r.q_conn
+   | CRefCount ->
+     let r1 = q_upd r (app r.q_reg (k :: [])) r.q_conn in
+     if r.q_conn then r1 else q_connect kind cold r1
+   | CReplay ->
+     let r0 = q_add_log r k (map (fun x -> Nx x) r.q_items) in
+     (match r.q_term with
+      | Some t -> q_add_log r0 k (t :: [])
+      | None ->
+        let r1 = q_upd r0 (app r0.q_reg (k :: [])) r0.q_conn in
+        if r.q_conn then r1 else q_connect kind cold r1))
+| DUnsub k ->
+  let reg = filter (fun x -> negb (Nat.eqb x k)) r.q_reg in
+  (match kind with
+   | CPublish -> q_upd r reg r.q_conn
+   | _ -> q_upd r reg (match reg with
+                       | [] -> false
+                       | _ :: _ -> r.q_conn))
+| DEmit (_, e) -> q_source_ev kind r e
+| DConnect (_, _) ->
+  (match kind with
+   | CPublish -> q_connect kind cold r
+   | _ -> r)
+| DDisconnect _ ->
+  (match kind with
+   | CPublish -> q_upd r r.q_reg false
+   | _ -> r)
+
+(** val cref0 : cref **)
+
+let cref0 =
+  { q_reg = []; q_conn = false; q_items = []; q_term = None; q_logs =
+    (fun _ -> []); q_attempts = O; q_dbl = false }
+
+(** val c13_oracle : scenario -> observation -> bool option **)
+
+let c13_oracle sc o =
+  match sc.sc_conns with
+  | [] -> None
+  | p :: l ->
+    let (kind, srcp) = p in
+    (match l with
+     | [] ->
+       let cold =
+         match srcp with
+         | PCold s ->
+           (match s with
+            | O ->
+              (match scripts_of sc O with
+               | [] -> None
+               | l0 :: _ ->
+                 (match parse_script l0 with
+                  | Some i -> Some (Some (events i))
+                  | None -> None))
+            | S _ -> None)
+         | PHot h ->
+           (match h with
+            | O ->
+              (match sc.sc_subjects with
+               | [] -> None
+               | p0 :: l0 ->
+                 let (s, _) = p0 in
+                 (match s with
+                  | KSubject ->
+                    (match l0 with
+                     | [] -> Some None
+                     | _ :: _ -> None)
+                  | _ -> None))
+            | S _ -> None)
+         | _ -> None
+       in
+       (match cold with
+        | Some cold0 ->
+          if negb (Nat.eqb o.ob_out O)
+          then None
+          else if negb
+                    (forallb (fun a ->
+                      match a with
+                      | DSub (_, p0, rs) ->
+                        (match p0 with
+                         | PConn k0 ->
+                           (match k0 with
+                            | O ->
+                              (match rs with
+                               | [] -> true
+                               | _ :: _ -> false)
+                            | S _ -> false)
+                         | _ -> false)
+                      | DEmit (h, _) ->
+                        (&&) (Nat.eqb h O)
+                          (match cold0 with
+                           | Some _ -> false
+                           | None -> true)
+                      | _ -> true) sc.sc_script)
+               then None
+               else let states =
+                      fold_left (fun acc a ->
+                        app acc
+                          ((cref_step kind cold0 (last acc cref0) a) :: []))
+                        sc.sc_script (cref0 :: [])
+                    in
+                    let r = last states cref0 in
+                    if r.q_dbl
+                    then None
+                    else Some
+                           ((&&)
+                             (forallb (fun k ->
+                               evs_sim (ulog (uenc (UTop k)) o.ob_log)
+                                 (r.q_logs k)) (seq O sc.sc_handles))
+                             (match cold0 with
+                              | Some _ ->
+                                Nat.eqb
+                                  (length
+                                    (nodup Nat.eq_dec
+                                      (map (fun pr ->
+                                        let (p0, _) = pr in
+                                        let (p1, _) = p0 in
+                                        let (p2, _) = p1 in
+                                        let (p3, _) = p2 in
+                                        let (_, att) = p3 in att) o.ob_probes)))
+                                  r.q_attempts
+                              | None ->
+                                forallb (fun js ->
+                                  match nth_error o.ob_snaps (fst js) with
+                                  | Some p0 ->
+                                    let (_, counts) = p0 in
+                                    Nat.eqb (nth O counts O)
+                                      (if (snd js).q_conn then S O else O)
+                                  | None -> true)
+                                  (combine (seq O (length sc.sc_script))
+                                    (tl states))))
+        | None -> None)
+     | _ :: _ -> None)
